@@ -15,9 +15,13 @@ Definition tick_step (sh : shape) (i : nat) (g : target) (c : cyc) : target :=
   match tick_of c i with Some p => tick_target sh (c_t c) p g | None => g end.
 Definition spec_tgt (sh : shape) (i : nat) (cs : list cyc) : target := fold_left (tick_step sh i) cs t0.
 
-Definition sel_step (op : Z) (s : option nat) (c : cyc) : option nat :=
-  match c_sel c with Some v => Some (sel_target op v) | None => s end.
-Definition spec_sel (op : Z) (cs : list cyc) : option nat := fold_left (sel_step op) cs None.
+(* the selection operators as a fold over the script (independent of targets and link);
+   for the plain ops this is "the target designated by the latest selector value", for
+   the chained ops (6, 7) the composition of the two selectors of Ref.sel_eval *)
+Definition selst_step (op : Z) (ss : selst) (c : cyc) : selst := fst (sel_eval op ss (c_sel c) (c_sel2 c)).
+Definition spec_selst (op : Z) (cs : list cyc) : selst := fold_left (selst_step op) cs sel0.
+Definition spec_sel (op : Z) (cs : list cyc) : option nat := s_out (spec_selst op cs).
+Definition sel_step (op : Z) (ss : selst) (c : cyc) : option nat := s_out (selst_step op ss c).
 
 Definition last_t (cs : list cyc) : Z := fold_left (fun _ c => c_t c) cs 0.
 
@@ -99,19 +103,61 @@ Proof. intros H. apply (last_t_nonneg_from 0 cs); [lia|exact H]. Qed.
 
 Lemma spec_tgt_snoc sh i pre c : spec_tgt sh i (pre ++ [c]) = tick_step sh i (spec_tgt sh i pre) c.
 Proof. unfold spec_tgt. rewrite fold_left_app. reflexivity. Qed.
-Lemma spec_sel_snoc op pre c : spec_sel op (pre ++ [c]) = sel_step op (spec_sel op pre) c.
-Proof. unfold spec_sel. rewrite fold_left_app. reflexivity. Qed.
+Lemma spec_selst_snoc op pre c : spec_selst op (pre ++ [c]) = selst_step op (spec_selst op pre) c.
+Proof. unfold spec_selst. rewrite fold_left_app. reflexivity. Qed.
+Lemma spec_sel_snoc op pre c : spec_sel op (pre ++ [c]) = sel_step op (spec_selst op pre) c.
+Proof. unfold spec_sel, sel_step. rewrite spec_selst_snoc. reflexivity. Qed.
 
 Lemma sel_target_lt3 op v : (sel_target op v < 3)%nat.
 Proof. unfold sel_target. repeat match goal with |- context [if ?b then _ else _] => destruct b end; lia. Qed.
 
-Lemma spec_sel_lt3 op cs j : spec_sel op cs = Some j -> (j < 3)%nat.
+Lemma publish_some s out j : publish s out = Some j -> j = s /\ out <> Some j.
 Proof.
-  induction cs as [|c cs IH] using rev_ind; [discriminate|].
-  rewrite spec_sel_snoc. unfold sel_step. destruct (c_sel c).
-  - intros [= <-]. apply sel_target_lt3.
-  - exact IH.
+  unfold publish. destruct out as [cur|].
+  - destruct (Nat.eqb cur s) eqn:E; [discriminate|]. apply Nat.eqb_neq in E. intros [= <-]. split; [reflexivity|congruence].
+  - intros [= <-]. split; [reflexivity|discriminate].
 Qed.
+
+Ltac sel_cases :=
+  repeat match goal with
+         | |- context [match ?x with _ => _ end] => destruct x eqn:?
+         | H : context [match ?x with _ => _ end] |- _ => destruct x eqn:?
+         end.
+
+(* shape of one selection step: the new reference value is the published one, else the old *)
+Lemma sel_eval_out op ss a b :
+  s_out (fst (sel_eval op ss a b)) = match snd (sel_eval op ss a b) with Some s => Some s | None => s_out ss end.
+Proof. unfold sel_eval. destruct (chained op); reflexivity. Qed.
+
+(* whatever is published went through the same-reference de-duplication *)
+Lemma sel_eval_pub op ss a b j :
+  snd (sel_eval op ss a b) = Some j -> exists s, publish s (s_out ss) = Some j.
+Proof.
+  unfold sel_eval, selector. destruct (chained op); simpl; intros H; sel_cases; try discriminate; eauto.
+Qed.
+
+Definition sel_bounded (ss : selst) : Prop :=
+  (forall j, s_in ss = Some j -> (j < 3)%nat) /\ (forall j, s_out ss = Some j -> (j < 3)%nat).
+
+Lemma sel_eval_bounded op ss a b : sel_bounded ss -> sel_bounded (fst (sel_eval op ss a b)).
+Proof.
+  intros [Hi Ho]. unfold sel_bounded, sel_eval, selector.
+  destruct (chained op); simpl; split; intros j H; sel_cases; try discriminate;
+    repeat match goal with
+           | H : publish _ _ = Some _ |- _ => apply publish_some in H; destruct H as [-> _]
+           | H : Some _ = Some _ |- _ => injection H as <-
+           end; subst; auto using sel_target_lt3; try lia.
+Qed.
+
+Lemma spec_selst_bounded op cs : sel_bounded (spec_selst op cs).
+Proof.
+  induction cs as [|c cs IH] using rev_ind.
+  - split; intros j H; discriminate.
+  - rewrite spec_selst_snoc. apply sel_eval_bounded. exact IH.
+Qed.
+
+Lemma spec_sel_lt3 op cs j : spec_sel op cs = Some j -> (j < 3)%nat.
+Proof. intros H. apply (proj2 (spec_selst_bounded op cs)). exact H. Qed.
 
 (* ------------------------------------------------------------------ the targets follow their own history *)
 Lemma get_tick_all sh t ps ts i :
@@ -136,7 +182,7 @@ Qed.
 Record Inv (sh : shape) (op : Z) (pre : list cyc) (st : state) : Prop := mkInv {
   inv_len  : length (tgts st) = 3%nat;
   inv_tgt  : forall i, (i < 3)%nat -> get_t (tgts st) i = spec_tgt sh i pre;
-  inv_rout : rout st = spec_sel op pre;
+  inv_rout : sel st = spec_selst op pre;
   inv_lk   : lk_tgt (lnk st) = spec_sel op pre;
   inv_lmt  : lk_lmt (lnk st) <= last_t pre;
   inv_tr   : lk_trans (lnk st) <= last_t pre;
@@ -151,36 +197,24 @@ Proof.
     destruct (tick_of c i); simpl; lia.
 Qed.
 
-(* the selector publishes exactly when the designated target changes *)
-Lemma selector_spec op v out :
-  selector op v out = if match out with Some cur => Nat.eqb cur (sel_target op v) | None => false end
-                      then None else Some (sel_target op v).
-Proof. unfold selector. destruct out as [cur|]; [destruct (Nat.eqb cur (sel_target op v))|]; reflexivity. Qed.
+(* the consumer-side reference output publishes exactly when the designated target changes *)
+Definition pub_of (op : Z) (ss : selst) (c : cyc) : option nat := snd (sel_eval op ss (c_sel c) (c_sel2 c)).
 
-Definition pub_of (op : Z) (old : option nat) (c : cyc) : option nat :=
-  match c_sel c with Some v => selector op v old | None => None end.
-
-Lemma pub_none op old c : pub_of op old c = None <-> sel_step op old c = old.
+Lemma pub_none op ss c : pub_of op ss c = None <-> sel_step op ss c = s_out ss.
 Proof.
-  unfold pub_of, sel_step. destruct (c_sel c) as [v|]; [|tauto].
-  rewrite selector_spec. destruct old as [cur|].
-  - destruct (Nat.eqb cur (sel_target op v)) eqn:E.
-    + apply Nat.eqb_eq in E. subst. tauto.
-    + apply Nat.eqb_neq in E. split; [discriminate|]. intros [= H]. congruence.
-  - split; discriminate.
+  unfold pub_of, sel_step, selst_step. rewrite sel_eval_out.
+  destruct (snd (sel_eval op ss (c_sel c) (c_sel2 c))) as [j|] eqn:E; [|tauto].
+  destruct (sel_eval_pub _ _ _ _ _ E) as [s Hs]. apply publish_some in Hs. destruct Hs as [_ Hne].
+  split; [discriminate|]. intros H. symmetry in H. contradiction.
 Qed.
 
-Lemma pub_some op old c j : pub_of op old c = Some j <-> (sel_step op old c = Some j /\ old <> Some j).
+Lemma pub_some op ss c j : pub_of op ss c = Some j <-> (sel_step op ss c = Some j /\ s_out ss <> Some j).
 Proof.
-  unfold pub_of, sel_step. destruct (c_sel c) as [v|].
-  - rewrite selector_spec. destruct old as [cur|].
-    + destruct (Nat.eqb cur (sel_target op v)) eqn:E.
-      * apply Nat.eqb_eq in E. subst. split; [discriminate|]. intros [[= <-] H]. congruence.
-      * apply Nat.eqb_neq in E. split.
-        -- intros [= <-]. split; [reflexivity|congruence].
-        -- intros [[= <-] _]. reflexivity.
-    + split; [intros [= <-]; split; [reflexivity|discriminate]|intros [[= <-] _]; reflexivity].
-  - split; [discriminate|]. intros [H1 H2]. congruence.
+  unfold pub_of, sel_step, selst_step. rewrite sel_eval_out.
+  destruct (snd (sel_eval op ss (c_sel c) (c_sel2 c))) as [k|] eqn:E.
+  - destruct (sel_eval_pub _ _ _ _ _ E) as [s Hs]. apply publish_some in Hs. destruct Hs as [_ Hne].
+    split; [intros [= <-]; auto|intros [[= <-] _]; reflexivity].
+  - split; [discriminate|]. intros [H1 H2]. contradiction.
 Qed.
 
 (* rebind to a different target always installs it *)
@@ -208,21 +242,25 @@ Proof.
   pose proof (proj1 (wf_snoc pre c) Hwf) as [Hwp Hlt].
   pose proof (last_t_nonneg pre Hwp) as Hnn.
   unfold step.
-  fold (pub_of op (rout st) c).
   set (ts := tick_all sh (c_t c) (c_ticks c) (tgts st)).
   set (bt := match lk_tgt (lnk st) with Some i => ticks c i | None => false end).
   set (l1 := if bt then mkL (lk_tgt (lnk st)) (c_t c) (lk_trans (lnk st)) (lk_prev (lnk st)) (lk_stale (lnk st)) else lnk st).
   assert (Hl1t : lk_tgt l1 = lk_tgt (lnk st)) by (unfold l1; destruct bt; reflexivity).
   assert (Hl1m : lk_lmt l1 <= c_t c) by (unfold l1; destruct bt; simpl; lia).
   assert (Hl1r : lk_trans l1 <= last_t pre) by (unfold l1; destruct bt; simpl; lia).
-  destruct (pub_of op (rout st) c) as [s|] eqn:Ep.
+  destruct (sel_eval op (sel st) (c_sel c) (c_sel2 c)) as [ss' pub] eqn:Ese.
+  assert (Hss : ss' = spec_selst op (pre ++ [c])).
+  { rewrite spec_selst_snoc. unfold selst_step. rewrite <- Hro, Ese. reflexivity. }
+  assert (Hpub : pub = pub_of op (spec_selst op pre) c).
+  { unfold pub_of. rewrite <- Hro, Ese. reflexivity. }
+  destruct pub as [s|].
   - destruct (rebind sh (c_t c) ts s l1) as [l2 rn] eqn:Er. simpl.
-    rewrite Hro in Ep. apply pub_some in Ep. destruct Ep as [Es Hne].
+    symmetry in Hpub. apply pub_some in Hpub. destruct Hpub as [Es Hne].
     constructor; simpl.
     + unfold ts. rewrite tick_all_length. exact Hlen.
     + intros i Hi. unfold ts. rewrite get_tick_all by lia. rewrite spec_tgt_snoc. unfold tick_step, tick_of.
       rewrite Htg by exact Hi. reflexivity.
-    + rewrite spec_sel_snoc. symmetry. exact Es.
+    + exact Hss.
     + rewrite spec_sel_snoc, Es.
       pose proof (rebind_tgt sh (c_t c) ts s l1) as R. rewrite Er in R. simpl in R.
       destruct R as [R|[R _]]; [exact R|]. rewrite Hl1t, Hlk in R. contradiction.
@@ -233,13 +271,13 @@ Proof.
       pose proof (rebind_times sh (c_t c) ts s l1 (c_t c) Hl1m ltac:(lia) ltac:(lia) ltac:(lia)) as R.
       rewrite Er in R. simpl in R. lia.
     + intros i. apply spec_tgt_lmt_le. exact Hwf.
-  - simpl. rewrite Hro in Ep. apply pub_none in Ep.
+  - simpl. symmetry in Hpub. apply pub_none in Hpub.
     constructor; simpl.
     + unfold ts. rewrite tick_all_length. exact Hlen.
     + intros i Hi. unfold ts. rewrite get_tick_all by lia. rewrite spec_tgt_snoc. unfold tick_step, tick_of.
       rewrite Htg by exact Hi. reflexivity.
-    + rewrite spec_sel_snoc, Ep. exact Hro.
-    + rewrite spec_sel_snoc, Ep, Hl1t. exact Hlk.
+    + exact Hss.
+    + rewrite spec_sel_snoc, Hpub, Hl1t. exact Hlk.
     + rewrite last_t_snoc. exact Hl1m.
     + rewrite last_t_snoc. lia.
     + intros i. apply spec_tgt_lmt_le. exact Hwf.
@@ -268,11 +306,11 @@ Definition old_view (sh : shape) (old : option nat) (pre : list cyc) : kv :=
 Definition old_stale (sh : shape) (old : option nat) (pre : list cyc) (c : cyc) : list Z :=
   match old with Some i => if ticks c i then [] else trem (spec_tgt sh i pre) | None => [] end.
 
-Definition retargets (op : Z) (old : option nat) (c : cyc) : bool :=
-  match pub_of op old c with Some _ => true | None => false end.
+Definition retargets (op : Z) (ss : selst) (c : cyc) : bool :=
+  match pub_of op ss c with Some _ => true | None => false end.
 
-Lemma retargets_false op old c : retargets op old c = false <-> sel_step op old c = old.
-Proof. unfold retargets. rewrite <- pub_none. destruct (pub_of op old c); split; congruence. Qed.
+Lemma retargets_false op ss c : retargets op ss c = false <-> sel_step op ss c = s_out ss.
+Proof. unfold retargets. rewrite <- pub_none. destruct (pub_of op ss c); split; congruence. Qed.
 
 (* The last cycle, described through the specification notions only. *)
 Lemma last_out_cases sh op pre c :
@@ -289,7 +327,7 @@ Lemma last_out_cases sh op pre c :
     (bound_ticked old c = false -> lk_lmt l1 <= last_t pre) /\
     ((cur = old /\ l2 = l1 /\ rn = false /\ o_ref o = false) \/
      (exists j, cur = Some j /\ old <> Some j /\ rebind sh t ts j l1 = (l2, rn) /\ o_ref o = true)) /\
-    o_cons o = consumers (bound_ticked old c || rn || (c_nest c && (retargets op old c || c_poke c)))
+    o_cons o = consumers (bound_ticked old c || rn || (c_nest c && (retargets op (spec_selst op pre) c || c_poke c)))
                          (c_poke c) (c_force c) (read sh t ts l2) /\
     o_direct o = directs c ts /\ o_t o = t.
 Proof.
@@ -298,7 +336,6 @@ Proof.
   destruct (inv_reach sh op pre Hwp) as [Hlen Htg Hro Hlk Hlmt Htr Htl].
   set (st := st_after sh op pre) in *.
   unfold o, last_out. fold st. unfold step.
-  fold (pub_of op (rout st) c).
   set (ts := tick_all sh (c_t c) (c_ticks c) (tgts st)).
   rewrite Hlk. fold old. fold (bound_ticked old c).
   set (l1 := if bound_ticked old c then mkL old (c_t c) (lk_trans (lnk st)) (lk_prev (lnk st)) (lk_stale (lnk st)) else lnk st).
@@ -310,8 +347,10 @@ Proof.
   assert (Hl1a : bound_ticked old c = true -> lk_lmt l1 = t) by (unfold l1; intros ->; reflexivity).
   assert (Hl1b : bound_ticked old c = false -> lk_lmt l1 <= last_t pre) by (unfold l1; intros ->; exact Hlmt).
   assert (Hlts : length ts = 3%nat) by (unfold ts; rewrite tick_all_length; exact Hlen).
-  rewrite Hro. fold old.
-  destruct (pub_of op old c) as [s|] eqn:Ep.
+  rewrite Hro.
+  destruct (sel_eval op (spec_selst op pre) (c_sel c) (c_sel2 c)) as [ss' pub] eqn:Ese.
+  assert (Ep : pub_of op (spec_selst op pre) c = pub) by (unfold pub_of; rewrite Ese; reflexivity).
+  destruct pub as [s|].
   - destruct (rebind sh (c_t c) ts s l1) as [l2 rn] eqn:Er. simpl.
     pose proof Ep as Ep'. apply pub_some in Ep. destruct Ep as [Es Hne].
     exists ts, l1, l2, rn. repeat split; auto.
@@ -468,7 +507,7 @@ Lemma last_out_reading sh op pre c :
     o_cons (last_out sh op pre c) = consumers n (c_poke c) (c_force c) (read sh (c_t c) ts l2).
 Proof.
   intros Hwf. destruct (last_out_cases sh op pre c Hwf) as (ts & l1 & l2 & rn & _ & Hts & Hl1 & _ & _ & _ & Hc & Hcons & _).
-  exists ts, l2, (bound_ticked (spec_sel op pre) c || rn || (c_nest c && (retargets op (spec_sel op pre) c || c_poke c))).
+  exists ts, l2, (bound_ticked (spec_sel op pre) c || rn || (c_nest c && (retargets op (spec_selst op pre) c || c_poke c))).
   repeat split; auto.
   destruct Hc as [(Hcur & -> & _ & _)|(j & Hcur & Hne & Hr & _)].
   - rewrite Hl1. symmetry. exact Hcur.
@@ -673,9 +712,9 @@ Qed.
    sees that removal); next cycle the reference is retargeted to B = {5}: the consumer
    is told that 1 AND 2 were removed. *)
 Definition refute_pre : list cyc :=
-  [mkC 1 (Some 1) [Some [1; 2]; None; None] false false false;
-   mkC 2 None [Some [-1]; Some [5]; None] false false false].
-Definition refute_c : cyc := mkC 3 (Some 0) [None; None; None] false false false.
+  [mkC 1 (Some 1) None [Some [1; 2]; None; None] false false false;
+   mkC 2 None None [Some [-1]; Some [5]; None] false false false].
+Definition refute_c : cyc := mkC 3 (Some 0) None [None; None; None] false false false.
 
 Lemma keyed_retarget_is_diff_refuted_l :
   exists sh op pre c j,
@@ -714,7 +753,7 @@ Proof.
   assert (Hbt : bound_ticked (spec_sel op pre) c = false).
   { unfold bound_ticked. destruct (spec_sel op pre) as [j|]; [apply Hnt; reflexivity|reflexivity]. }
   destruct Hc as [(_ & -> & -> & _)|(j & Hcur & Hne & _)]; [|rewrite Hsame in Hcur; contradiction].
-  assert (Hrt : retargets op (spec_sel op pre) c = false).
+  assert (Hrt : retargets op (spec_selst op pre) c = false).
   { apply retargets_false. rewrite <- spec_sel_snoc. exact Hsame. }
   rewrite Hbt, Hrt in Hcons. simpl in Hcons. rewrite Hcons in Hin.
   apply consumers_in in Hin. destruct Hin as [-> Hwho].
@@ -749,11 +788,41 @@ Proof.
   - rewrite Href, Hcur. split; [|reflexivity]. intros _ H. symmetry in H. contradiction.
 Qed.
 
+(* C13 (5), general form (covers the chained ops): whatever the selectors do in this
+   cycle, if the designated target stays the same the reference output does not tick,
+   and (unless that target itself ticks) nothing reaches the consumers *)
+Lemma same_designation_no_tick_l sh op pre c :
+  wf (pre ++ [c]) ->
+  spec_sel op (pre ++ [c]) = spec_sel op pre ->
+  o_ref (last_out sh op pre c) = false /\
+  ((forall j, spec_sel op pre = Some j -> ticks c j = false) ->
+   forall cid r, In (cid, r) (o_cons (last_out sh op pre c)) ->
+     (c_force c = true \/ (c_poke c = true /\ (cid = 1%nat \/ cid = 2%nat \/ c_nest c = true))) /\
+     r_mod r = false /\ r_upd r = [] /\ r_rem r = []).
+Proof.
+  intros Hwf Hsame.
+  split.
+  - destruct (o_ref (last_out sh op pre c)) eqn:E; [|reflexivity].
+    apply (ref_ticks_iff_retarget_l sh op pre c Hwf) in E. contradiction.
+  - intros Hnt cid r Hin.
+    destruct (unselected_never_reaches_l sh op pre c cid r Hwf Hsame Hnt Hin) as (H1 & H2 & H3 & H4 & _); auto.
+Qed.
+
+(* a plain (non-chained) selector tick designating the target already designated leaves
+   the designation unchanged *)
+Lemma plain_same_selection op pre c v :
+  chained op = false -> c_sel c = Some v -> spec_sel op pre = Some (sel_target op v) ->
+  spec_sel op (pre ++ [c]) = spec_sel op pre.
+Proof.
+  intros Hch Hsel Hold. rewrite spec_sel_snoc. unfold sel_step, selst_step, sel_eval, selector.
+  unfold spec_sel in *. rewrite Hch, Hsel, Hold. simpl. rewrite Nat.eqb_refl. simpl. try rewrite Hold. reflexivity.
+Qed.
+
 (* C13 (5): republishing an unchanged reference causes no tick: a selector tick that
    designates the target already designated does not tick the reference output, and
    (unless that target itself ticks) nothing reaches the consumers *)
 Lemma same_reference_no_tick_l sh op pre c v :
-  wf (pre ++ [c]) ->
+  wf (pre ++ [c]) -> chained op = false ->
   c_sel c = Some v -> spec_sel op pre = Some (sel_target op v) ->
   o_ref (last_out sh op pre c) = false /\
   (ticks c (sel_target op v) = false ->
@@ -761,15 +830,67 @@ Lemma same_reference_no_tick_l sh op pre c v :
      (c_force c = true \/ (c_poke c = true /\ (cid = 1%nat \/ cid = 2%nat \/ c_nest c = true))) /\
      r_mod r = false /\ r_upd r = [] /\ r_rem r = []).
 Proof.
-  intros Hwf Hsel Hold.
-  assert (Hsame : spec_sel op (pre ++ [c]) = spec_sel op pre).
-  { rewrite spec_sel_snoc. unfold sel_step. rewrite Hsel. symmetry. exact Hold. }
-  split.
-  - destruct (o_ref (last_out sh op pre c)) eqn:E; [|reflexivity].
-    apply (ref_ticks_iff_retarget_l sh op pre c Hwf) in E. contradiction.
-  - intros Hnt cid r Hin.
-    destruct (unselected_never_reaches_l sh op pre c cid r Hwf Hsame) as (H1 & H2 & H3 & H4 & _); auto.
-    intros j Hj. rewrite Hold in Hj. injection Hj as <-. exact Hnt.
+  intros Hwf Hch Hsel Hold.
+  pose proof (plain_same_selection op pre c v Hch Hsel Hold) as Hsame.
+  destruct (same_designation_no_tick_l sh op pre c Hwf Hsame) as [H1 H2].
+  split; [exact H1|]. intros Hnt. apply H2.
+  intros j Hj. rewrite Hold in Hj. injection Hj as <-. exact Hnt.
+Qed.
+
+(* ---- chained selection (ops 6, 7) ---- *)
+(* For the plain ops the designation is the latest selector value. *)
+Lemma plain_designation op pre c v :
+  chained op = false -> c_sel c = Some v -> spec_sel op (pre ++ [c]) = Some (sel_target op v).
+Proof.
+  intros Hch Hsel. rewrite spec_sel_snoc. unfold sel_step, selst_step, sel_eval, selector, publish.
+  rewrite Hch, Hsel. simpl. destruct (s_out (spec_selst op pre)) as [cur|]; [|reflexivity].
+  destruct (Nat.eqb cur (sel_target op v)) eqn:E; [|reflexivity]. apply Nat.eqb_eq in E. subst. reflexivity.
+Qed.
+
+(* The chained case the seeded change C13-republish-only-on-selector-tick breaks: the OUTER
+   selector is quiet and designates the inner branch; the INNER selector flips to a target
+   the consumers do not read yet.  Then the consumer-side reference is retargeted in this
+   very cycle (so retarget_ticks_same_cycle applies with j = the inner selector's target). *)
+Lemma chained_inner_flip_retargets_l op pre c v v2 :
+  chained op = true ->
+  c_sel2 c = None -> s_c2 (spec_selst op pre) = Some v2 -> picks_inner op v2 = true ->
+  c_sel c = Some v ->
+  s_in (spec_selst op pre) <> Some (sel_target 0 v) ->
+  spec_sel op (pre ++ [c]) = Some (sel_target 0 v).
+Proof.
+  intros Hch H2 Hc2 Hpk Hsel Hin.
+  rewrite spec_sel_snoc. unfold sel_step, selst_step, sel_eval, selector.
+  rewrite Hch, H2, Hsel, Hc2, Hpk. simpl.
+  assert (Hp : publish (sel_target 0 v) (s_in (spec_selst op pre)) = Some (sel_target 0 v)).
+  { unfold publish. destruct (s_in (spec_selst op pre)) as [cur|]; [|reflexivity].
+    destruct (Nat.eqb cur (sel_target 0 v)) eqn:E; [|reflexivity]. apply Nat.eqb_eq in E. subst. contradiction. }
+  rewrite Hp. simpl. unfold publish.
+  destruct (s_out (spec_selst op pre)) as [cur|]; [|reflexivity].
+  destruct (Nat.eqb cur (sel_target 0 v)) eqn:E; [|reflexivity]. apply Nat.eqb_eq in E. subst. reflexivity.
+Qed.
+
+(* and the outer selector switching between its branches follows the inner designation *)
+Lemma chained_outer_to_inner_l op pre c v2 j :
+  chained op = true -> c_sel c = None ->
+  c_sel2 c = Some v2 -> picks_inner op v2 = true -> s_in (spec_selst op pre) = Some j ->
+  spec_sel op (pre ++ [c]) = Some j.
+Proof.
+  intros Hch H1 H2 Hpk Hin.
+  rewrite spec_sel_snoc. unfold sel_step, selst_step, sel_eval.
+  rewrite Hch, H1, H2, Hpk, Hin. simpl. unfold publish.
+  destruct (s_out (spec_selst op pre)) as [cur|]; [|reflexivity].
+  destruct (Nat.eqb cur j) eqn:E; [|reflexivity]. apply Nat.eqb_eq in E. subst. reflexivity.
+Qed.
+
+Lemma chained_outer_to_c_l op pre c v2 :
+  chained op = true -> c_sel2 c = Some v2 -> picks_inner op v2 = false ->
+  spec_sel op (pre ++ [c]) = Some 2%nat.
+Proof.
+  intros Hch H2 Hpk.
+  rewrite spec_sel_snoc. unfold sel_step, selst_step, sel_eval.
+  rewrite Hch, H2, Hpk. simpl. unfold publish.
+  destruct (s_out (spec_selst op pre)) as [cur|]; [|reflexivity].
+  destruct (Nat.eqb cur 2) eqn:E; [|reflexivity]. apply Nat.eqb_eq in E. subst. reflexivity.
 Qed.
 
 (* the PASSIVE consumer is never woken through the reference *)
